@@ -233,7 +233,7 @@ impl Monitor for C07 {
         }
     }
     fn rule(&self) -> &'static str {
-        "sweep: case k = all bit patterns k*2^20 .. (k+1)*2^20, non-finite ones skipped, through forward and backward of ReLU, LeakyReLU, Sigmoid, Tanh, Linear (public API, one tensor per chunk; every 16th chunk as a 3-D tensor) against f64 oracles (value 1e-5 relative + 1e-7 absolute for sigmoid/tanh, derivative 1e-5 relative + 1e-6 absolute, never NaN/inf, sigmoid in [0,1], tanh in [-1,1], either one-sided derivative at +-0); distinct = number of distinct finite bit patterns. stratified: per (sign, exponent) 2^15 mantissas incl. all-zeros and all-ones. rank: random CxHxW tensors, both the 3-D and the flat path are compared with the oracle (same tolerances) and must preserve the shape field and the nesting. softmax: 100 vectors per case from 8 families (moderate, huge +-3e38, all-equal, one-dominant, denormal, long-tail, large-offset, wide), lengths 1..64, flat and 3-D: finite, >= 0, sum 1, equals f64 soft-max, shift-invariant, arg-max preserved."
+        "sweep: case k = all bit patterns k*2^20 .. (k+1)*2^20, non-finite ones skipped, through forward and backward of ReLU, LeakyReLU, Sigmoid, Tanh, Linear (public API, one tensor per chunk; every 16th chunk as a 3-D tensor) against f64 oracles (value 1e-5 relative + 1e-7 absolute for sigmoid/tanh, derivative 1e-5 relative + 1e-6 absolute, never NaN/inf, sigmoid in [0,1], tanh in [-1,1], either one-sided derivative at +-0); distinct = number of distinct finite bit patterns. stratified: per (sign, exponent) 2^15 mantissas incl. all-zeros and all-ones. rank: random CxHxW tensors, both the 3-D and the flat path are compared with the oracle (same tolerances) and must preserve the shape field and the nesting. softmax: 100 vectors per case from 8 families (moderate, huge +-3e38, all-equal, one-dominant, denormal, long-tail, large-offset, wide), lengths 1..64 and (every tenth vector) 65..4097, flat and 3-D: finite, >= 0, sum 1, equals f64 soft-max, shift-invariant, arg-max preserved."
     }
     fn assumptions(&self) -> Vec<&'static str> {
         vec!["f64 libm is the oracle for exp/tanh/cosh", "soft-max backward is not part of C07 (it belongs to C01)"]
@@ -321,7 +321,7 @@ impl Monitor for C07 {
                 let mut out = Out::new(String::new());
                 let mut n_vec = 0u64;
                 for k in 0..100usize {
-                    let n = if k < 8 { [1, 2, 3, 4, 16, 63, 64, 5][k] } else { rng.range(1, 64) };
+                    let n = if k < 8 { [1, 2, 3, 4, 16, 63, 64, 5][k] } else if k % 10 == 9 { *rng.pick(&[65usize, 100, 127, 128, 129, 255, 256, 257, 1000, 1024, 4097]) } else { rng.range(1, 64) };
                     let fam = (k + idx as usize) % 8;
                     let (x, name) = softmax_family(&mut rng, fam, n);
                     let sh = if rng.chance(0.3) {
